@@ -169,6 +169,13 @@ package types
 //@      :pattern ((select s (kStream r sd))))))
 //@ (define-fun NS () Int 1000000000)
 //@ (define-fun MAXDUR () Int 9223372036)
+//@ ; the escrow account holds, per denomination, exactly the sum of the remaining deposits (C10)
+//@ (define-fun STR_ESCROW ((s (Array stream.Key (Slice Int))) (b (Array BytesV (Array Str Int))) (esc BytesV)) Bool
+//@   (forall ((d Str)) (! (= (select (select b esc) d) (depSum s d)) :pattern ((depSum s d)) :pattern ((select (select b esc) d)))))
+//@ ; no stream pays to or from the escrow account itself
+//@ (define-fun STR_NOESC ((s (Array stream.Key (Slice Int))) (esc BytesV)) Bool
+//@   (forall ((r BytesV) (sd BytesV)) (! (=> (strHas s r sd) (and (not (= r esc)) (not (= sd esc)))) :pattern ((select s (kStream r sd))))))
+//@ (define-fun addrB ((s Str)) BytesV (bytesval (addrOf s)))
 //@ end
 
 //@ global ParamsKey abstracts str_key(ParamsKey) == kSParams
